@@ -299,7 +299,7 @@ func TestC11(t *testing.T) {
 	evid.Main(t, "C11", func(rec *evid.Rec) {
 		rec.Rule("(position) engine boards along rapid playouts: parse(print(b)) equals b in every field incl. fullmove number, second print equal; (text) reference-printed canonical FENs with raw and normalised en-passant field, clocks 0..100, fullmove up to 10^6, all rights combinations, up to 9 queens / 10 rooks, bishops, knights: print(parse(s)) == s and the parsed board equals the reference reading, for FromFEN and ParseFEN; (uci) `position fen s` + `fen` prints s, and a following rejected command (garbage FEN, too few fields, bad counters, impossible piece counts) leaves the position in place; (bytes) grammar mutations of valid FENs, hostile constants and raw bytes: no panic, both entry points agree on acceptance; accepted inputs that describe a valid position print/parse/print stably. Thorough tier adds native coverage-guided fuzzing of the same target. Non-trivial = FEN with en-passant target or rights (position), every distinct canonical text / session (text, uci); mutations are counted as evaluations only")
 		rec.Assume("reference FEN reader/printer in verif/refchess")
-		rec.Rapid(t, "position", evid.Pick(4000, 80000), func(t *rapid.T) {
+		rec.Rapid(t, "position", evid.Pick(20000, 300000), func(t *rapid.T) {
 			root, label := gen.Root(t)
 			c := Case{Kind: "position", FEN: root.FEN()}
 			gen.Playout(t, root, 30, func(ply int, p *refchess.Pos, legal []refchess.Move, m refchess.Move) bool {
@@ -312,7 +312,7 @@ func TestC11(t *testing.T) {
 				t.Fatalf("%v", err)
 			}
 		})
-		rec.Rapid(t, "text", evid.Pick(20000, 400000), func(t *rapid.T) {
+		rec.Rapid(t, "text", evid.Pick(100000, 1500000), func(t *rapid.T) {
 			var p refchess.Pos
 			if gen.Chance(t, 1, 4, "heavy") {
 				p = heavy(t)
@@ -342,7 +342,7 @@ func TestC11(t *testing.T) {
 				t.Fatalf("%v", err)
 			}
 		})
-		rec.Rapid(t, "uci", evid.Pick(2500, 40000), func(t *rapid.T) {
+		rec.Rapid(t, "uci", evid.Pick(10000, 100000), func(t *rapid.T) {
 			var p refchess.Pos
 			if gen.Chance(t, 1, 2, "heavy") {
 				p = heavy(t)
@@ -376,7 +376,7 @@ func TestC11(t *testing.T) {
 				t.Fatalf("%v", err)
 			}
 		})
-		rec.Rapid(t, "bytes", evid.Pick(60000, 1500000), func(t *rapid.T) {
+		rec.Rapid(t, "bytes", evid.Pick(300000, 5000000), func(t *rapid.T) {
 			r, _ := gen.Root(t)
 			c := Case{Kind: "bytes", Raw: mutate(t, r.FEN())}
 			if rec.WantSample("bytes") {
